@@ -73,9 +73,13 @@ pub fn run_pool(check_id: &str, tier: Tier, units: Vec<Value>, jobs: usize) -> U
     let units = Arc::new(units);
     let total = Arc::new(Mutex::new(UnitResult::default()));
     let jobs = jobs.min(units.len()).max(1);
+    // Each hang costs a full watchdog period. After a few of them the verdict is settled (a hang
+    // is a violation), so the remaining units are not started.
+    let hangs = Arc::new(AtomicUsize::new(0));
+    let max_hangs: usize = std::env::var("VERIF_MAX_HANGS").ok().and_then(|s| s.parse().ok()).unwrap_or(3);
     let mut handles = vec![];
     for _ in 0..jobs {
-        let (exe, next, units, total) = (exe.clone(), next.clone(), units.clone(), total.clone());
+        let (exe, next, units, total, hangs) = (exe.clone(), next.clone(), units.clone(), total.clone(), hangs.clone());
         let check_id = check_id.to_string();
         handles.push(std::thread::spawn(move || {
             let spawn = || {
@@ -113,6 +117,13 @@ pub fn run_pool(check_id: &str, tier: Tier, units: Vec<Value>, jobs: usize) -> U
             let mut cin = child.stdin.take().unwrap();
             let mut lines = start_reader(child.stdout.take().unwrap());
             loop {
+                if hangs.load(Ordering::SeqCst) >= max_hangs {
+                    let i = next.swap(units.len(), Ordering::SeqCst);
+                    if i < units.len() {
+                        total.lock().unwrap().caps.push(format!("stopped after {max_hangs} hung executions: units {i}..{} not run", units.len()));
+                    }
+                    break;
+                }
                 let i = next.fetch_add(1, Ordering::SeqCst);
                 if i >= units.len() {
                     break;
@@ -153,6 +164,9 @@ pub fn run_pool(check_id: &str, tier: Tier, units: Vec<Value>, jobs: usize) -> U
                 match result {
                     Some(r) => {
                         respawn = r.poisoned;
+                        if r.poisoned {
+                            hangs.fetch_add(1, Ordering::SeqCst);
+                        }
                         total.lock().unwrap().merge(r);
                     }
                     None if stalled => {
@@ -170,6 +184,7 @@ pub fn run_pool(check_id: &str, tier: Tier, units: Vec<Value>, jobs: usize) -> U
                         );
                         r.caps.push(format!("unit {unit} abandoned after a stall"));
                         total.lock().unwrap().merge(r);
+                        hangs.fetch_add(1, Ordering::SeqCst);
                         respawn = true;
                     }
                     None => {
